@@ -74,8 +74,9 @@ func (s *segmentMetadata) getIndex(vecIdx VectorIndex, txtIdx TextIndex, metaIdx
 	}
 
 	verifHook("load.begin", s.id)
-	// Create new hybrid index
-	idx := NewHybridSearchIndex(vecIdx, txtIdx, metaIdx)
+	// Create new hybrid index backed by its own sub-indexes, so that loading
+	// this segment does not overwrite the templates shared with the memtables
+	idx := NewHybridSearchIndex(newVectorIndexLike(vecIdx), newTextIndexLike(txtIdx), newMetadataIndexLike(metaIdx))
 
 	// Open all segment files
 	hybridFile, err := os.Open(s.hybridPath)
@@ -302,5 +303,57 @@ func (sm *segmentManager) EvictAllCaches() {
 
 	for _, seg := range segments {
 		seg.EvictCache()
+	}
+}
+
+// newVectorIndexLike returns an empty vector index constructed with the same
+// parameters as the template. Trained state is restored by ReadFrom.
+// Unknown implementations fall back to the template itself.
+func newVectorIndexLike(t VectorIndex) VectorIndex {
+	var fresh VectorIndex
+	var err error
+	switch v := t.(type) {
+	case nil:
+		return nil
+	case *FlatIndex:
+		fresh, err = NewFlatIndex(v.dim, v.distanceKind)
+	case *HNSWIndex:
+		fresh, err = NewHNSWIndex(v.dim, v.distanceKind, v.M, v.efConstruction, v.efSearch)
+	case *IVFIndex:
+		fresh, err = NewIVFIndex(v.dim, v.nlist, v.distanceKind)
+	case *PQIndex:
+		fresh, err = NewPQIndex(v.dim, v.distanceKind, v.M, v.Nbits)
+	case *IVFPQIndex:
+		fresh, err = NewIVFPQIndex(v.dim, v.distanceKind, v.nlist, v.M, v.Nbits)
+	default:
+		return t
+	}
+	if err != nil {
+		return t
+	}
+	return fresh
+}
+
+// newTextIndexLike returns an empty text index of the same kind as the template.
+func newTextIndexLike(t TextIndex) TextIndex {
+	switch t.(type) {
+	case nil:
+		return nil
+	case *BM25SearchIndex:
+		return NewBM25SearchIndex()
+	default:
+		return t
+	}
+}
+
+// newMetadataIndexLike returns an empty metadata index of the same kind as the template.
+func newMetadataIndexLike(t MetadataIndex) MetadataIndex {
+	switch t.(type) {
+	case nil:
+		return nil
+	case *RoaringMetadataIndex:
+		return NewRoaringMetadataIndex()
+	default:
+		return t
 	}
 }
